@@ -550,7 +550,55 @@ func buildSeeds() []*seed {
 	add("enc-v1-arrays", encodeGGUF(1, false, 32, allTypesKV(false, true), stdTensors()[:1]), false)
 	add("enc-be-alltypes", encodeGGUF(3, true, 16, allTypesKV(true, true), stdTensors()), false)
 	add("enc-v3-bigarrays", encodeGGUF(3, false, 32, bigArrayKV(), stdTensors()[1:]), false)
+	// four one-dimensional I8 tensors of one alignment unit each: the seed of the wrap-around sums (wrapItems)
+	add(wrapSeedName, encodeGGUF(3, false, 32, []kvSpec{{"general.architecture", tStr, "llama"}}, []tensorSpec{
+		{Name: "a.weight", Dims: []uint64{32}, Kind: 24, Bytes: 32},
+		{Name: "b.weight", Dims: []uint64{32}, Kind: 24, Bytes: 32},
+		{Name: "c.weight", Dims: []uint64{32}, Kind: 24, Bytes: 32},
+		{Name: "d.weight", Dims: []uint64{32}, Kind: 24, Bytes: 32},
+	}), false)
 	return seeds
+}
+
+const wrapSeedName = "enc-v3-wrap4"
+
+// wrapItems enumerates the tensor-size tuples whose running sum wraps around 2^64:
+// the first k-1 of k tensors (k = 2..4, the others keep one alignment unit) take
+// every value of a small alphabet of huge sizes and the k-th is the complement
+// that makes data start + sum of sizes congruent to each target offset modulo
+// 2^64 (0, the data start, the file length, one alignment unit, 2^63). Each size
+// by itself may be a valid non-negative int64; only their sum leaves the range.
+// A decoder that adds sizes up instead of checking every step ends at the target.
+func wrapItems(si int, s *seed) []string {
+	var dims []int
+	for fi, f := range s.L.fields {
+		if f.Kind == "dim" {
+			dims = append(dims, fi)
+		}
+	}
+	huge := []uint64{1 << 61, 1 << 62, 1<<63 - 32}
+	targets := []uint64{0, 32, uint64(s.L.tensorBase), uint64(len(s.Bytes)), 1 << 63}
+	var out []string
+	for k := 2; k <= len(dims); k++ {
+		n := 1
+		for i := 0; i < k-1; i++ {
+			n *= len(huge)
+		}
+		for c := 0; c < n; c++ {
+			sum := uint64(s.L.tensorBase) + uint64(32*(len(dims)-k))
+			var es []edit
+			for i, cc := 0, c; i < k-1; i, cc = i+1, cc/len(huge) {
+				v := huge[cc%len(huge)]
+				es = append(es, edit{dims[i], v})
+				sum += v
+			}
+			for _, t := range targets {
+				last := t - sum // modulo 2^64
+				out = append(out, fmt.Sprintf("m|%d|%s", si, editsString(append(es[:len(es):len(es)], edit{dims[k-1], last}))))
+			}
+		}
+	}
+	return out
 }
 
 // ---- mutation alphabet ---------------------------------------------------------
